@@ -69,6 +69,11 @@ def programs():
     P['close||text||binary-z'] = dict(z='permessage-deflate', threads=[[['close', 1000, 'bye']], [['send_text', 'T1-0 kkkkkkkkkkkk']],
                                                                          [['send_binary', b'T2-0 kkkkkkkkkkkk']]])
     P['loop-server-close||close||send'] = dict(z=None, loop='server-close', loop_n=3, threads=[[['close', 1001, 'app']], [['send_ping', b'T2-0']]])
+    # the thread that iterates the connection calls close() and then abandons the loop (break / generator.close()):
+    # the clean-up it triggers runs concurrently with another thread's send
+    P['close-then-abandon||send_text'] = dict(z=None, threads=[[['close', 1000, 'bye'], ['abandon']], [['send_text', 'T1-0']]])
+    P['close-then-abandon||send_binary+ping'] = dict(z=None, threads=[[['close'], ['abandon']], [['send_binary', b'T1-0'], ['send_ping', b'T1-1']]])
+    P['close-then-abandon||close'] = dict(z=None, threads=[[['close', 1000, 'first'], ['abandon']], [['close', 1001, 'second']]])
     return P
 
 
@@ -108,7 +113,7 @@ def judge_c12(prog, out):
         if not r['ok']:
             if not issubclass(r['exc_type'], lerrors.WebSocketError):
                 return 'racing-call-raised-non-websocket-error:%s' % r['exc_type'].__name__, detail, None
-        if call[0] == 'close':
+        if call[0] in ('close', 'abandon'):
             continue
         op, pl = c11.expected_payload(call)
         on_wire = [k for k, f in enumerate(frames) if f['opcode'] == op and (f['payload'] == pl or (z and f['rsv1']))]
